@@ -27,7 +27,8 @@ RULE = ("job = seed -> history of <= 9 operations over one client and two "
         "forged / altered / expired / foreign state => a full handshake "
         "completes.  distinct = digest(history); non-trivial = at least one "
         "resumption attempt reached the server"
-        ' Servers are long-lived (cache ring pre-aged by a drawn number of writes), may hold an external TLS 1.3 PSK next to the ticket keys (client offering both), and the operator may change the server cipher policy between connections.')
+        ' Servers are long-lived (cache ring pre-aged by a drawn number of writes), may hold an external TLS 1.3 PSK next to the ticket keys (client offering both), and the operator may change the server cipher policy between connections.'
+        ' Connections may be held open concurrently and released later in any order (enumerated shared-session skeleton: two connections on one session ending in every order and way); invalidation is sticky in the model; both sides may meanwhile support TLS 1.3 (version upgrade); handshakes may be abandoned mid-flight (invariant: only sessions of completed handshakes sit in a cache as resumable entries).')
 LEVEL_TEXT = ("Seeded exploration of connection histories; simulated time "
               "covers hours to days per history at millisecond cost, which "
               "is what makes expiry, rotation and skew reachable.  The "
